@@ -51,7 +51,7 @@ inline TwrCase gen_twr_case(Tape & t, int size, bool many_flushes) {
     Program & p = c.prog;
     p.via = "twr";
     p.ops.push_back(gen_source(t, 1));
-    int nsig = t.chance(1, 3) ? 2 : 1;
+    int nsig = t.chance(1, many_flushes ? 2 : 3) ? 2 : 1;
     struct Plan { int id; const DType * dt; int64_t first, written; Pattern pat; int64_t anno_ts, utc_id; };
     std::vector<Plan> plans;
     for (int s = 0; s < nsig; ++s) {
@@ -67,7 +67,7 @@ inline TwrCase gen_twr_case(Tape & t, int size, bool many_flushes) {
         pl.anno_ts = pl.first; pl.utc_id = pl.first;
         plans.push_back(pl);
     }
-    if (nsig == 2 && t.chance(1, 2)) c.second_sig = 2;
+    if (nsig == 2 && (many_flushes ? t.chance(2, 3) : t.chance(1, 2))) c.second_sig = 2;
     c.drop = t.chance(1, 3);
     int nops = (int) t.range(3, 10 + size / 3);
     for (int k = 0; k < nops; ++k) {
@@ -96,7 +96,8 @@ inline TwrCase gen_twr_case(Tape & t, int size, bool many_flushes) {
             case 2: { Op u; u.op = "utc"; u.sig = pl.id; pl.utc_id += t.range(1, 100); u.sample_id = pl.utc_id; u.utc = (int64_t) k * 1000000; p.ops.push_back(u); break; }
             case 3: { Op u; u.op = "user"; u.meta = (int) t.range(0, 0xfff); u.stor = (int) t.range(1, 3); u.data.gen = true; u.data.seed = (uint64_t) t.raw() << 1; u.data.n = (uint32_t) t.range(0, 300); u.data.text = u.stor != 1; p.ops.push_back(u); break; }
             case 4: { Op o; o.op = "omit"; o.sig = pl.id; o.enable = (int) t.below(2); p.ops.push_back(o); break; }
-            default: { Op o; o.op = "flush"; p.ops.push_back(o); break; }
+            default: { Op o; o.op = "flush"; if (many_flushes && c.second_sig >= 0 && t.chance(1, 2)) o.sig = c.second_sig;   // flush issued by the second application thread
+                       p.ops.push_back(o); break; }
         }
     }
     // schedule
@@ -150,7 +151,7 @@ inline TwrRun run_twr_case(const TwrCase & c, const char * path) {
             for (size_t k = 0; k < c.prog.ops.size(); ++k) {
                 const Op & o = c.prog.ops[k];
                 if (o.op == "signal" && o.id == c.second_sig) { defined = true; continue; }
-                if (defined && (o.op == "fsr" || o.op == "utc" || o.op == "omit" || (o.op == "anno" && o.sig == c.second_sig)) && o.sig == c.second_sig) { second_ops.push_back(k); if (k < first_second) first_second = k; }
+                if (defined && (o.op == "fsr" || o.op == "utc" || o.op == "omit" || o.op == "flush" || (o.op == "anno" && o.sig == c.second_sig)) && o.sig == c.second_sig) { second_ops.push_back(k); if (k < first_second) first_second = k; }
             }
         }
         std::set<size_t> second_set(second_ops.begin(), second_ops.end());
